@@ -263,15 +263,15 @@ def clone_list(
 ) -> rdflib.URIRef: ...
 
 
-def _list_members(graph, lnode):
-    """The members of the rdf:List starting at lnode. A list whose rdf:rest chain loops back into
-    itself (valid RDF, but not a well-formed list) ends where it would start to repeat."""
+def _list_cells(graph, lnode):
+    """The cells of the rdf:List starting at lnode that hold a member, each with its member. A list whose
+    rdf:rest chain loops back into itself (valid RDF, but not a well-formed list) ends where it would start to repeat."""
     seen = set()
     while lnode is not None and lnode not in seen:
         seen.add(lnode)
         item = graph.value(lnode, RDF_first)
         if item is not None:
-            yield item
+            yield lnode, item
         lnode = graph.value(lnode, rdflib.RDF.rest)
 
 
@@ -286,9 +286,20 @@ def clone_list(graph, lnode, target_graph, keepid=False, recursion=0, deep_clone
         # A list can be a NamedIndividual too
         cloned_node = rdflib.URIRef(str(lnode))
     new_list = Collection(target_graph, cloned_node)
-    for item in _list_members(graph, lnode):
+    cells = []
+    for cell, item in _list_cells(graph, lnode):
         cloned_item = clone_node(graph, item, target_graph, recursion=recursion + 1, deep_clone=deep_clone)
         new_list.append(cloned_item)
+        cells.append(cell)
+    # a list cell can carry statements besides rdf:first and rdf:rest; they are part of its description too
+    cloned_cell = cloned_node
+    for cell in cells:
+        if isinstance(cell, rdflib.BNode) or deep_clone:
+            for p, o in graph.predicate_objects(cell):
+                if p != RDF_first and p != rdflib.RDF.rest:
+                    cloned_o = clone_node(graph, o, target_graph, recursion=recursion + 1)
+                    target_graph.add((cloned_cell, rdflib.URIRef(str(p)), cloned_o))
+        cloned_cell = target_graph.value(cloned_cell, rdflib.RDF.rest)
     return cloned_node
 
 
